@@ -178,6 +178,8 @@ func blockReaches2(b, to *ssa.BasicBlock) bool {
 func runC34(c *Ctx) {
 	w := c.W
 	pkg := "z/tls"
+	c34Extras(c)
+	c25WriteRules(c)
 	if w.Pkg(pkg) == nil {
 		c.Undecided("R-LOCK", pkg, "package", "-", "not loaded")
 		return
